@@ -4,12 +4,26 @@
 // socket left, no callback after Client.Close returned; the handler-callback sequence of every run is fed to
 // the extracted callback automaton (ctx.Corr), which must accept it and - after Server.Close - find every
 // opened connection and session closed.
+//
+// Every packet / request callback of a session is logged with a BEGIN and an END event; the automaton (and an
+// independent oracle in the log itself) refuses an OnSessionClose that is delivered while a callback of that
+// session is in progress, and any callback of it afterwards.  Besides Close of server / stream / client /
+// session, the harness injects ServerConn.Close() - from another goroutine and from INSIDE packet and request
+// callbacks - and ServerSession.Close() from inside callbacks, against TCP (interleaved) readers that send
+// several RTCP receiver reports per write and TCP publishers that send several RTP frames per write, and
+// Client.Close from inside the client's OnPacketRTP.
+//
+// Every scenario runs in a CHILD PROCESS (the harness re-executes itself): a panic of the library in one of
+// its own goroutines kills only the child and is reported as a violation with the scenario as its replay.
 package main
 
 import (
+	"bufio"
+	"encoding/json"
 	"fmt"
 	"net"
 	"os"
+	"os/exec"
 	"runtime"
 	"strconv"
 	"strings"
@@ -21,6 +35,7 @@ import (
 	"github.com/bluenviron/gortsplib/v5/pkg/base"
 	"github.com/bluenviron/gortsplib/v5/pkg/description"
 	"github.com/bluenviron/gortsplib/v5/pkg/format"
+	"github.com/pion/rtcp"
 	"github.com/pion/rtp"
 
 	"verifharness/hx"
@@ -29,15 +44,22 @@ import (
 // ---------------------------------------------------------------- callback log
 
 type cbLog struct {
-	mu    sync.Mutex
-	conns map[*gortsplib.ServerConn]int
-	sess  map[*gortsplib.ServerSession]int
-	word  []uint64
-	n     int
+	mu      sync.Mutex
+	conns   map[*gortsplib.ServerConn]int
+	sess    map[*gortsplib.ServerSession]int
+	tcp     map[*gortsplib.ServerSession]*gortsplib.ServerConn // the connection whose reader delivers the session's frames
+	running map[*gortsplib.ServerSession]int                   // callbacks of the session in progress
+	closed  map[*gortsplib.ServerSession]bool
+	word    []uint64
+	n       int
+	viol    []failure
+	pkts    atomic.Int64
 }
 
 func newLog() *cbLog {
-	return &cbLog{conns: map[*gortsplib.ServerConn]int{}, sess: map[*gortsplib.ServerSession]int{}}
+	return &cbLog{conns: map[*gortsplib.ServerConn]int{}, sess: map[*gortsplib.ServerSession]int{},
+		tcp: map[*gortsplib.ServerSession]*gortsplib.ServerConn{}, running: map[*gortsplib.ServerSession]int{},
+		closed: map[*gortsplib.ServerSession]bool{}}
 }
 
 const unknownID = 999999
@@ -57,6 +79,11 @@ func (l *cbLog) sessID(s *gortsplib.ServerSession) uint64 {
 func (l *cbLog) add(x ...uint64) {
 	l.word = append(l.word, x...)
 	l.n++
+}
+func (l *cbLog) violation(class, f string, a ...any) {
+	if len(l.viol) < 6 {
+		l.viol = append(l.viol, failure{class, fmt.Sprintf(f, a...)})
+	}
 }
 func (l *cbLog) connOpen(c *gortsplib.ServerConn) {
 	l.mu.Lock()
@@ -83,9 +110,15 @@ func (l *cbLog) sessOpen(s *gortsplib.ServerSession, c *gortsplib.ServerConn) {
 	l.sess[s] = len(l.sess)
 	l.add(3, l.sessID(s), l.connID(c))
 }
+
+// the independent oracle: OnSessionClose while a callback of the session is still running
 func (l *cbLog) sessClose(s *gortsplib.ServerSession) {
 	l.mu.Lock()
 	defer l.mu.Unlock()
+	if n := l.running[s]; n > 0 {
+		l.violation("callback-running-at-session-close", "OnSessionClose of session %d delivered while %d callback(s) of that session had not returned", l.sessID(s), n)
+	}
+	l.closed[s] = true
 	l.add(4, l.sessID(s))
 }
 func (l *cbLog) req(c *gortsplib.ServerConn) {
@@ -93,25 +126,113 @@ func (l *cbLog) req(c *gortsplib.ServerConn) {
 	defer l.mu.Unlock()
 	l.add(5, l.connID(c))
 }
-func (l *cbLog) reqS(c *gortsplib.ServerConn, s *gortsplib.ServerSession) {
-	l.mu.Lock()
-	defer l.mu.Unlock()
-	l.add(6, l.connID(c), l.sessID(s))
+func (l *cbLog) begun(s *gortsplib.ServerSession, what string) {
+	if l.closed[s] {
+		l.violation("callback-after-session-close", "%s callback of session %d invoked after its OnSessionClose", what, l.sessID(s))
+	}
+	l.running[s]++
 }
-func (l *cbLog) pkt(s *gortsplib.ServerSession) {
+
+// a request callback inside a session: runs on the session's goroutine
+func (l *cbLog) reqSBegin(c *gortsplib.ServerConn, s *gortsplib.ServerSession) {
 	l.mu.Lock()
 	defer l.mu.Unlock()
-	l.add(7, l.sessID(s))
+	l.begun(s, "request")
+	l.add(6, l.connID(c), l.sessID(s))
+	l.add(10, l.sessID(s))
+}
+func (l *cbLog) sEnd(s *gortsplib.ServerSession) {
+	l.mu.Lock()
+	defer l.mu.Unlock()
+	l.running[s]--
+	l.add(11, l.sessID(s))
+}
+
+// a callback of a session that no connection reader runs (UDP listener, stream writer, decode errors)
+func (l *cbLog) sBegin(s *gortsplib.ServerSession, what string) {
+	l.mu.Lock()
+	defer l.mu.Unlock()
+	l.begun(s, what)
+	l.add(10, l.sessID(s))
+}
+func (l *cbLog) setTCP(s *gortsplib.ServerSession, c *gortsplib.ServerConn) {
+	l.mu.Lock()
+	defer l.mu.Unlock()
+	l.tcp[s] = c
+}
+func (l *cbLog) tcpConn(s *gortsplib.ServerSession) *gortsplib.ServerConn {
+	l.mu.Lock()
+	defer l.mu.Unlock()
+	return l.tcp[s]
+}
+
+// a packet callback: over TCP it is run by the reader goroutine of the session's connection
+func (l *cbLog) pktBegin(s *gortsplib.ServerSession) *gortsplib.ServerConn {
+	l.pkts.Add(1)
+	l.mu.Lock()
+	defer l.mu.Unlock()
+	l.begun(s, "packet")
+	c := l.tcp[s]
+	if c != nil {
+		l.add(8, l.connID(c), l.sessID(s))
+	} else {
+		l.add(10, l.sessID(s))
+	}
+	return c
+}
+func (l *cbLog) pktEnd(s *gortsplib.ServerSession, c *gortsplib.ServerConn) {
+	l.mu.Lock()
+	defer l.mu.Unlock()
+	l.running[s]--
+	if c != nil {
+		l.add(9, l.connID(c))
+	} else {
+		l.add(11, l.sessID(s))
+	}
 }
 
 // ---------------------------------------------------------------- server handler
 
+// what the application does from inside one of its callbacks
+type inject struct {
+	Site   string `json:"site"` // "" | pkt | describe | announce | setup | play | record | pause
+	What   string `json:"what"` // conn (ServerConn.Close) | session (ServerSession.Close)
+	Nth    int    `json:"nth"`  // at the n-th invocation of that callback
+	HoldMs int    `json:"hold"` // the callback goes on for this long afterwards
+}
+
 type handler struct {
-	log     *cbLog
-	mu      sync.Mutex
-	stream  *gortsplib.ServerStream
-	block   chan struct{} // when non-nil, OnPacketRTP of recording sessions blocks on it
-	delay   time.Duration // artificial latency inside request callbacks
+	log      *cbLog
+	mu       sync.Mutex
+	stream   *gortsplib.ServerStream
+	block    chan struct{} // when non-nil, OnPacketRTP of recording sessions blocks on it
+	delay    time.Duration // artificial latency inside request callbacks
+	pktSleep time.Duration // artificial latency inside packet callbacks
+	inj      inject
+	injN     atomic.Int64
+	fired    chan struct{} // closed when the injection has been carried out
+}
+
+func (h *handler) maybeInject(site string, ss *gortsplib.ServerSession, sc *gortsplib.ServerConn) {
+	if h.inj.Site != site || h.injN.Add(1) != int64(h.inj.Nth) {
+		return
+	}
+	if h.inj.What == "session" && ss != nil {
+		ss.Close()
+	} else {
+		if sc == nil && ss != nil {
+			sc = h.log.tcpConn(ss)
+		}
+		if sc != nil {
+			sc.Close()
+		} else if ss != nil {
+			for _, c := range ss.Conns() {
+				c.Close()
+			}
+		}
+	}
+	close(h.fired)
+	time.Sleep(time.Duration(h.inj.HoldMs) * time.Millisecond)
 }
 
 func (h *handler) OnConnOpen(ctx *gortsplib.ServerHandlerOnConnOpenCtx)   { h.log.connOpen(ctx.Conn) }
@@ -130,6 +251,7 @@ func (h *handler) nap() {
 }
 func (h *handler) OnDescribe(ctx *gortsplib.ServerHandlerOnDescribeCtx) (*base.Response, *gortsplib.ServerStream, error) {
 	h.log.req(ctx.Conn)
+	h.maybeInject("describe", nil, ctx.Conn)
 	h.nap()
 	h.mu.Lock()
 	st := h.stream
@@ -140,12 +262,16 @@ func (h *handler) OnDescribe(ctx *gortsplib.ServerHandlerOnDescribeCtx) (*base.R
 	return &base.Response{StatusCode: base.StatusOK}, st, nil
 }
 func (h *handler) OnAnnounce(ctx *gortsplib.ServerHandlerOnAnnounceCtx) (*base.Response, error) {
-	h.log.reqS(ctx.Conn, ctx.Session)
+	h.log.reqSBegin(ctx.Conn, ctx.Session)
+	defer h.log.sEnd(ctx.Session)
+	h.maybeInject("announce", ctx.Session, ctx.Conn)
 	h.nap()
 	return &base.Response{StatusCode: base.StatusOK}, nil
 }
 func (h *handler) OnSetup(ctx *gortsplib.ServerHandlerOnSetupCtx) (*base.Response, *gortsplib.ServerStream, error) {
-	h.log.reqS(ctx.Conn, ctx.Session)
+	h.log.reqSBegin(ctx.Conn, ctx.Session)
+	defer h.log.sEnd(ctx.Session)
+	h.maybeInject("setup", ctx.Session, ctx.Conn)
 	h.nap()
 	if ctx.Session.State() == gortsplib.ServerSessionStatePreRecord {
 		return &base.Response{StatusCode: base.StatusOK}, nil, nil
@@ -155,37 +281,71 @@ func (h *handler) OnSetup(ctx *gortsplib.ServerHandlerOnSetupCtx) (*base.Respons
 	h.mu.Unlock()
 	return &base.Response{StatusCode: base.StatusOK}, st, nil
 }
-func (h *handler) OnPlay(ctx *gortsplib.ServerHandlerOnPlayCtx) (*base.Response, error) {
-	h.log.reqS(ctx.Conn, ctx.Session)
-	h.nap()
-	return &base.Response{StatusCode: base.StatusOK}, nil
-}
-func (h *handler) OnRecord(ctx *gortsplib.ServerHandlerOnRecordCtx) (*base.Response, error) {
-	h.log.reqS(ctx.Conn, ctx.Session)
-	ss := ctx.Session
-	ss.OnPacketRTPAny(func(*description.Media, format.Format, *rtp.Packet) {
-		h.log.pkt(ss)
+
+// packet is the body of every packet callback of a session
+func (h *handler) packet(ss *gortsplib.ServerSession, rtpOfRecorder bool) {
+	c := h.log.pktBegin(ss)
+	defer h.log.pktEnd(ss, c)
+	h.maybeInject("pkt", ss, nil)
+	if h.pktSleep > 0 {
+		time.Sleep(h.pktSleep)
+	}
+	if rtpOfRecorder {
 		h.mu.Lock()
 		b := h.block
 		h.mu.Unlock()
 		if b != nil {
 			<-b
 		}
-	})
+	}
+}
+func (h *handler) noteTransport(ss *gortsplib.ServerSession, sc *gortsplib.ServerConn) {
+	if t := ss.Transport(); t != nil && t.Protocol == gortsplib.ProtocolTCP {
+		h.log.setTCP(ss, sc)
+	}
+}
+func (h *handler) OnPlay(ctx *gortsplib.ServerHandlerOnPlayCtx) (*base.Response, error) {
+	h.log.reqSBegin(ctx.Conn, ctx.Session)
+	defer h.log.sEnd(ctx.Session)
+	ss := ctx.Session
+	h.noteTransport(ss, ctx.Conn)
+	ss.OnPacketRTCPAny(func(*description.Media, rtcp.Packet) { h.packet(ss, false) })
+	h.maybeInject("play", ss, ctx.Conn)
+	h.nap()
+	return &base.Response{StatusCode: base.StatusOK}, nil
+}
+func (h *handler) OnRecord(ctx *gortsplib.ServerHandlerOnRecordCtx) (*base.Response, error) {
+	h.log.reqSBegin(ctx.Conn, ctx.Session)
+	defer h.log.sEnd(ctx.Session)
+	ss := ctx.Session
+	h.noteTransport(ss, ctx.Conn)
+	ss.OnPacketRTPAny(func(*description.Media, format.Format, *rtp.Packet) { h.packet(ss, true) })
+	ss.OnPacketRTCPAny(func(*description.Media, rtcp.Packet) { h.packet(ss, false) })
+	h.maybeInject("record", ss, ctx.Conn)
 	return &base.Response{StatusCode: base.StatusOK}, nil
 }
 func (h *handler) OnPause(ctx *gortsplib.ServerHandlerOnPauseCtx) (*base.Response, error) {
-	h.log.reqS(ctx.Conn, ctx.Session)
+	h.log.reqSBegin(ctx.Conn, ctx.Session)
+	defer h.log.sEnd(ctx.Session)
+	h.maybeInject("pause", ctx.Session, ctx.Conn)
 	return &base.Response{StatusCode: base.StatusOK}, nil
 }
 func (h *handler) OnGetParameter(ctx *gortsplib.ServerHandlerOnGetParameterCtx) (*base.Response, error) {
-	h.log.reqS(ctx.Conn, ctx.Session)
+	h.log.reqSBegin(ctx.Conn, ctx.Session)
+	defer h.log.sEnd(ctx.Session)
 	return &base.Response{StatusCode: base.StatusOK}, nil
 }
-func (h *handler) OnPacketsLost(ctx *gortsplib.ServerHandlerOnPacketsLostCtx) { h.log.pkt(ctx.Session) }
-func (h *handler) OnDecodeError(ctx *gortsplib.ServerHandlerOnDecodeErrorCtx) { h.log.pkt(ctx.Session) }
+func (h *handler) OnPacketsLost(ctx *gortsplib.ServerHandlerOnPacketsLostCtx) {
+	h.log.sBegin(ctx.Session, "packets-lost")
+	h.log.sEnd(ctx.Session)
+}
+func (h *handler) OnDecodeError(ctx *gortsplib.ServerHandlerOnDecodeErrorCtx) {
+	h.log.sBegin(ctx.Session, "decode-error")
+	h.log.sEnd(ctx.Session)
+}
 func (h *handler) OnStreamWriteError(ctx *gortsplib.ServerHandlerOnStreamWriteErrorCtx) {
-	h.log.pkt(ctx.Session)
+	h.log.sBegin(ctx.Session, "stream-write-error")
+	h.log.sEnd(ctx.Session)
 }
 
 // ---------------------------------------------------------------- helpers
@@ -289,51 +449,94 @@ const (
 	rolePubUDP
 	roleReadTCPStalled // TCP reader whose callback blocks: the server's writer blocks in its socket write
 	rolePubTCPStalled  // TCP publisher towards a session whose packet callback blocks: the client's writer blocks
+	roleRawPlayTCP     // hand-made TCP reader: sends bursts of RTCP receiver reports, several frames per write
+	roleRawRecTCP      // hand-made TCP publisher: sends bursts of RTP frames, several frames per write
 )
 
-var roleNames = []string{"idle-conn", "options-only", "read-tcp", "read-udp", "pub-tcp", "pub-udp", "read-tcp-stalled", "pub-tcp-stalled"}
+var roleNames = []string{"idle-conn", "options-only", "read-tcp", "read-udp", "pub-tcp", "pub-udp", "read-tcp-stalled", "pub-tcp-stalled", "raw-play-tcp", "raw-rec-tcp"}
 
 type scenario struct {
-	idx      int
-	seed     uint64
-	roles    []clientRole
-	depth    []int // how far each client goes: 0 connect, 1 describe/announce, 2 setup, 3 play/record, 4 + pause
-	target   string // "server" | "stream" | "client" | "session"
-	delayMs  int    // when Close is called
-	q        int
-	handlerDelayMs int
+	Idx            int          `json:"idx"`
+	Seed           uint64       `json:"seed"`
+	Roles          []clientRole `json:"roles"`
+	Depth          []int        `json:"depth"`  // how far each client goes: 0 connect, 1 describe/announce, 2 setup, 3 play/record, 4 + pause
+	Target         string       `json:"target"` // server | stream | client | session | conn (ServerConn.Close from another goroutine) | none
+	DelayMs        int          `json:"delay"`  // when Close is called
+	Q              int          `json:"q"`
+	HandlerDelayMs int          `json:"hdelay"`
+	Inject         inject       `json:"inject"`
+	Burst          int          `json:"burst"`    // raw peers: frames per write
+	NBursts        int          `json:"nbursts"`  // raw peers: writes
+	GapUs          int          `json:"gap"`      // raw peers: pause between writes
+	PktSleepUs     int          `json:"pktsleep"` // latency inside the server's packet callbacks
+	WaitPkts       int          `json:"waitpkts"` // the injected Close waits until the server has seen this many packet callbacks (at most 2 s)
+	WaitInject     bool         `json:"waitinj"`  // ... until the in-callback injection has been carried out (at most 2 s)
+	ClientCloseCb  int          `json:"cclosecb"` // > 0: readers call Client.Close from inside their n-th OnPacketRTP
+	Corpus         string       `json:"corpus,omitempty"`
 }
 
 func (s *scenario) String() string {
 	var rs []string
-	for i, r := range s.roles {
-		rs = append(rs, fmt.Sprintf("%s/%d", roleNames[r], s.depth[i]))
+	for i, r := range s.Roles {
+		rs = append(rs, fmt.Sprintf("%s/%d", roleNames[r], s.Depth[i]))
 	}
-	return fmt.Sprintf("target=%s after=%dms clients=[%s] q=%d handlerDelay=%dms seed=%d", s.target, s.delayMs, strings.Join(rs, " "), s.q, s.handlerDelayMs, s.seed)
+	js, _ := json.Marshal(s)
+	return fmt.Sprintf("target=%s after=%dms clients=[%s] inject=%s/%s#%d q=%d | replay: LIFECYCLE_SCENARIO='%s'",
+		s.Target, s.DelayMs, strings.Join(rs, " "), s.Inject.Site, s.Inject.What, s.Inject.Nth, s.Q, js)
 }
 
-type failure struct{ class, detail string }
+type failure struct {
+	Class  string `json:"class"`
+	Detail string `json:"detail"`
+}
 
 type cl struct {
 	role   clientRole
 	mu     sync.Mutex
 	c      *gortsplib.Client // guarded by mu (set by the client's goroutine, read by the closer)
 	raw    net.Conn          // guarded by mu
-	gate   chan struct{} // stalled reader: closed to release
-	closed atomic.Bool   // Client.Close has returned
-	after  atomic.Int64  // callbacks seen after Close returned
+	gate   chan struct{}     // stalled reader: closed to release
+	closed atomic.Bool       // Client.Close has returned
+	after  atomic.Int64      // callbacks seen after Close returned
+	inCb   atomic.Int64      // callbacks in progress
+	atRet  atomic.Int64      // callbacks in progress when Close returned
+	npkt   atomic.Int64
 	done   chan struct{}
 }
 
 const closeBound = 4 * time.Second
 
-func runScenario(sc *scenario, ctx *hx.Ctx) (word []uint64, final bool, fails []failure, maxClose time.Duration, atClose []uint64) {
-	rng := hx.NewRand(sc.seed)
-	add := func(class, f string, a ...any) { fails = append(fails, failure{class, fmt.Sprintf(f, a...)}) }
+type result struct {
+	Word       []uint64  `json:"word"`
+	Final      bool      `json:"final"`
+	Fails      []failure `json:"fails"`
+	MaxCloseMs int64     `json:"maxclose"`
+	AtClose    []uint64  `json:"atclose"`
+	Pkts       int64     `json:"pkts"`
+	Fired      bool      `json:"fired"`
+}
+
+func runScenario(sc *scenario) (word []uint64, final bool, fails []failure, maxClose time.Duration, atClose []uint64, pkts int64, fired bool) {
+	rng := hx.NewRand(sc.Seed)
+	var fmu sync.Mutex
+	add := func(class, f string, a ...any) {
+		fmu.Lock()
+		fails = append(fails, failure{class, fmt.Sprintf(f, a...)})
+		fmu.Unlock()
+	}
 	log := newLog()
-	h := &handler{log: log, delay: time.Duration(sc.handlerDelayMs) * time.Millisecond}
+	h := &handler{log: log, delay: time.Duration(sc.HandlerDelayMs) * time.Millisecond, pktSleep: time.Duration(sc.PktSleepUs) * time.Microsecond,
+		inj: sc.Inject, fired: make(chan struct{})}
+	defer func() {
+		pkts = log.pkts.Load()
+		select {
+		case <-h.fired:
+			fired = true
+		default:
+		}
+	}()
 	hasStalledPub := false
-	for _, r := range sc.roles {
+	for _, r := range sc.Roles {
 		if r == rolePubTCPStalled {
 			hasStalledPub = true
 		}
@@ -345,17 +548,17 @@ func runScenario(sc *scenario, ctx *hx.Ctx) (word []uint64, final bool, fails []
 	var port, udpPort int
 	for try := 0; ; try++ {
 		port = freeTCPPort()
-		udpPort = 20000 + 2*rng.Intn(20000)
+		udpPort = 20000 + 2*(portSlot*6000+rng.Intn(6000))
 		srv = &gortsplib.Server{
 			Handler: h, RTSPAddress: "127.0.0.1:" + strconv.Itoa(port),
 			UDPRTPAddress: "127.0.0.1:" + strconv.Itoa(udpPort), UDPRTCPAddress: "127.0.0.1:" + strconv.Itoa(udpPort+1),
-			WriteQueueSize: sc.q, ReadTimeout: 3 * time.Second, WriteTimeout: 1500 * time.Millisecond, IdleTimeout: 30 * time.Second,
+			WriteQueueSize: sc.Q, ReadTimeout: 3 * time.Second, WriteTimeout: 1500 * time.Millisecond, IdleTimeout: 30 * time.Second,
 		}
 		if err := srv.Start(); err == nil {
 			break
 		} else if try > 20 {
 			add("scenario-setup-failed", "server start: %v", err)
-			return nil, false, fails, 0, nil
+			return nil, false, fails, 0, nil, 0, false
 		}
 	}
 	desc := mkDesc()
@@ -363,7 +566,7 @@ func runScenario(sc *scenario, ctx *hx.Ctx) (word []uint64, final bool, fails []
 	if err := stream.Initialize(); err != nil {
 		add("scenario-setup-failed", "stream: %v", err)
 		srv.Close()
-		return nil, false, fails, 0, nil
+		return nil, false, fails, 0, nil, 0, false
 	}
 	h.mu.Lock()
 	h.stream = stream
@@ -375,12 +578,14 @@ func runScenario(sc *scenario, ctx *hx.Ctx) (word []uint64, final bool, fails []
 		go func() { f(); close(done) }()
 		select {
 		case <-done:
+			fmu.Lock()
 			if d := time.Since(t0); d > maxClose {
 				maxClose = d
 			}
+			fmu.Unlock()
 		case <-time.After(bound):
 			add("close-not-returning", "%s did not return within %v", what, bound)
-			<-done // a hang here is reported by the check's timeout with the class above already recorded
+			<-done // a hang here is reported by the watchdog with the class above already recorded
 		}
 	}
 
@@ -388,9 +593,10 @@ func runScenario(sc *scenario, ctx *hx.Ctx) (word []uint64, final bool, fails []
 	stopW := make(chan struct{})
 	var wgW sync.WaitGroup
 	wgW.Add(1)
+	seq0 := uint16(rng.Intn(65536))
 	go func() {
 		defer wgW.Done()
-		seq := uint16(rng.Intn(65536))
+		seq := seq0
 		pay := make([]byte, 1200)
 		for i := 0; ; i++ {
 			select {
@@ -407,25 +613,98 @@ func runScenario(sc *scenario, ctx *hx.Ctx) (word []uint64, final bool, fails []
 		}
 	}()
 
+	// Client.Close, and what must hold when it returns: no callback of the client is still running
+	closeClient := func(x *cl, xc *gortsplib.Client) {
+		xc.Close()
+		if n := x.inCb.Load(); n > 0 {
+			x.atRet.Add(n)
+		}
+		x.closed.Store(true)
+	}
+
 	// clients
-	cls := make([]*cl, len(sc.roles))
-	var wgC sync.WaitGroup
-	for i, role := range sc.roles {
+	cls := make([]*cl, len(sc.Roles))
+	var wgC, wgX sync.WaitGroup
+	for i, role := range sc.Roles {
 		i, role := i, role
 		x := &cl{role: role, done: make(chan struct{})}
 		if role == roleReadTCPStalled {
 			x.gate = make(chan struct{})
 		}
 		cls[i] = x
-		r := hx.NewRand(sc.seed*131 + uint64(i))
+		r := hx.NewRand(sc.Seed*131 + uint64(i))
 		nap := func() { time.Sleep(time.Duration(r.Intn(12)) * time.Millisecond) }
 		wgC.Add(1)
 		go func() {
 			defer wgC.Done()
 			defer close(x.done)
-			depth := sc.depth[i]
+			depth := sc.Depth[i]
 			url := "rtsp://127.0.0.1:" + strconv.Itoa(port) + "/s" + strconv.Itoa(i)
 			switch role {
+			case roleRawPlayTCP, roleRawRecTCP:
+				p, err := rawDial("127.0.0.1:" + strconv.Itoa(port))
+				if err != nil {
+					return
+				}
+				x.mu.Lock()
+				x.raw = p.nc
+				x.mu.Unlock()
+				if role == roleRawPlayTCP {
+					if st, err := p.do("SETUP", url+"/trackID=0", map[string]string{"Transport": "RTP/AVP/TCP;unicast;interleaved=0-1"}, nil); err != nil || st != 200 {
+						return
+					}
+					if st, err := p.do("PLAY", url, nil, nil); err != nil || st != 200 {
+						return
+					}
+				} else {
+					pd := mkDesc()
+					for k, m := range pd.Medias {
+						m.Control = "trackID=" + strconv.Itoa(k)
+					}
+					sdp, err := pd.Marshal()
+					if err != nil {
+						panic(err)
+					}
+					if st, err := p.do("ANNOUNCE", url, map[string]string{"Content-Type": "application/sdp"}, sdp); err != nil || st != 200 {
+						return
+					}
+					for k := range pd.Medias {
+						tr := fmt.Sprintf("RTP/AVP/TCP;unicast;interleaved=%d-%d;mode=record", 2*k, 2*k+1)
+						if st, err := p.do("SETUP", url+"/trackID="+strconv.Itoa(k), map[string]string{"Transport": tr}, nil); err != nil || st != 200 {
+							return
+						}
+					}
+					if st, err := p.do("RECORD", url, nil, nil); err != nil || st != 200 {
+						return
+					}
+				}
+				go p.drain()
+				seq := uint16(r.Intn(65536))
+				for b := 0; b < sc.NBursts; b++ {
+					select {
+					case <-stopW:
+						return
+					default:
+					}
+					var buf []byte
+					for k := 0; k < sc.Burst; k++ {
+						if role == roleRawPlayTCP {
+							buf = append(buf, frame(1, rawRR(0x11223344))...)
+						} else {
+							m := (b + k) % 2
+							buf = append(buf, frame(byte(2*m), rawRTP(uint8(96+m), seq, 0x55667700+uint32(m), 200))...)
+							seq++
+						}
+					}
+					p.nc.SetWriteDeadline(time.Now().Add(2 * time.Second)) //nolint:errcheck
+					if _, err := p.nc.Write(buf); err != nil {
+						return
+					}
+					if sc.GapUs > 0 {
+						time.Sleep(time.Duration(sc.GapUs) * time.Microsecond)
+					}
+				}
+				return
 			case roleIdleConn, roleOptions:
 				nc, err := net.Dial("tcp", "127.0.0.1:"+strconv.Itoa(port))
 				if err != nil {
@@ -441,7 +720,7 @@ func runScenario(sc *scenario, ctx *hx.Ctx) (word []uint64, final bool, fails []
 			}
 			c := &gortsplib.Client{
 				Scheme: "rtsp", Host: "127.0.0.1:" + strconv.Itoa(port),
-				ReadTimeout: 3 * time.Second, WriteTimeout: 1200 * time.Millisecond, WriteQueueSize: sc.q,
+				ReadTimeout: 3 * time.Second, WriteTimeout: 1200 * time.Millisecond, WriteQueueSize: sc.Q,
 				OnPacketsLost: func(uint64) {}, OnDecodeError: func(error) {},
 			}
 			switch role {
@@ -475,8 +754,20 @@ func runScenario(sc *scenario, ctx *hx.Ctx) (word []uint64, final bool, fails []
 					return
 				}
 				c.OnPacketRTPAny(func(*description.Media, format.Format, *rtp.Packet) {
+					x.inCb.Add(1)
+					defer x.inCb.Add(-1)
 					if x.closed.Load() {
 						x.after.Add(1)
+					}
+					if sc.ClientCloseCb > 0 && x.gate == nil && x.npkt.Add(1) == int64(sc.ClientCloseCb) {
+						// Client.Close waits for the goroutine this callback runs on: it cannot be called from
+						// the callback itself, the application hands it to another goroutine and carries on
+						wgX.Add(1)
+						go func() {
+							defer wgX.Done()
+							timed(fmt.Sprintf("Client.Close from OnPacketRTP (%s)", roleNames[role]), closeBound, func() { closeClient(x, c) })
+						}()
+						time.Sleep(2 * time.Millisecond)
 					}
 					if x.gate != nil {
 						<-x.gate
@@ -544,7 +835,24 @@ func runScenario(sc *scenario, ctx *hx.Ctx) (word []uint64, final bool, fails []
 	}
 
 	// the injected Close
-	time.Sleep(time.Duration(sc.delayMs) * time.Millisecond)
+	if sc.WaitInject || sc.WaitPkts > 0 {
+		lim := time.Now().Add(2 * time.Second)
+		for time.Now().Before(lim) {
+			ok := log.pkts.Load() >= int64(sc.WaitPkts)
+			if sc.WaitInject {
+				select {
+				case <-h.fired:
+				default:
+					ok = false
+				}
+			}
+			if ok {
+				break
+			}
+			time.Sleep(500 * time.Microsecond)
+		}
+	}
+	time.Sleep(time.Duration(sc.DelayMs) * time.Millisecond)
 	releaseBlock := func() {
 		h.mu.Lock()
 		if h.block != nil {
@@ -553,7 +861,7 @@ func runScenario(sc *scenario, ctx *hx.Ctx) (word []uint64, final bool, fails []
 		}
 		h.mu.Unlock()
 	}
-	if sc.target != "client" {
+	if sc.Target != "client" {
 		// a packet callback that never returns would hold the server's Close for ever (the caller's fault):
 		// let the blocked callbacks return shortly after Close has been called
 		go func() {
@@ -576,7 +884,7 @@ func runScenario(sc *scenario, ctx *hx.Ctx) (word []uint64, final bool, fails []
 			add("listener-leak", "the RTSP port %d still accepts connections when Server.Close returned", port)
 		}
 	}
-	switch sc.target {
+	switch sc.Target {
 	case "server":
 		timed("Server.Close", closeBound, func() { srv.Close(); afterServerClose() })
 		serverClosed = true
@@ -600,9 +908,22 @@ func runScenario(sc *scenario, ctx *hx.Ctx) (word []uint64, final bool, fails []
 						close(g)
 					}()
 				}
-				timed(fmt.Sprintf("Client.Close (%s)", roleNames[sc.roles[i]]), bound, func() { xc.Close(); x.closed.Store(true) })
+				timed(fmt.Sprintf("Client.Close (%s)", roleNames[sc.Roles[i]]), bound, func() { closeClient(x, xc) })
 			}
 		}
+	case "conn":
+		// the application kicks connections: ServerConn.Close from a goroutine of its own, while their readers
+		// are delivering frames
+		log.mu.Lock()
+		var cs []*gortsplib.ServerConn
+		for c := range log.conns {
+			cs = append(cs, c)
+		}
+		log.mu.Unlock()
+		for _, c := range cs {
+			c.Close()
+		}
+	case "none":
 	case "session":
 		// close every session the server knows of, from outside
 		log.mu.Lock()
@@ -626,7 +947,7 @@ func runScenario(sc *scenario, ctx *hx.Ctx) (word []uint64, final bool, fails []
 			select {
 			case <-x.done:
 			case <-time.After(closeBound):
-				add("client-call-not-returning", "client %d (%s) is still inside an API call %v after the injected Close", i, roleNames[sc.roles[i]], closeBound)
+				add("client-call-not-returning", "client %d (%s) is still inside an API call %v after the injected Close", i, roleNames[sc.Roles[i]], closeBound)
 			}
 			if x.gate != nil {
 				func() {
@@ -639,7 +960,7 @@ func runScenario(sc *scenario, ctx *hx.Ctx) (word []uint64, final bool, fails []
 			x.mu.Unlock()
 			if xc != nil && !x.closed.Load() {
 				x := x
-				timed(fmt.Sprintf("Client.Close (%s)", roleNames[sc.roles[i]]), closeBound, func() { xc.Close(); x.closed.Store(true) })
+				timed(fmt.Sprintf("Client.Close (%s)", roleNames[sc.Roles[i]]), closeBound, func() { closeClient(x, xc) })
 			}
 			if xraw != nil {
 				xraw.Close()
@@ -658,6 +979,7 @@ func runScenario(sc *scenario, ctx *hx.Ctx) (word []uint64, final bool, fails []
 		closeClients()
 	}
 	wgC.Wait()
+	wgX.Wait()
 
 	// nothing of the library is left running
 	if gs := waitNoLibGoroutines(3 * time.Second); len(gs) > 0 {
@@ -678,23 +1000,90 @@ func runScenario(sc *scenario, ctx *hx.Ctx) (word []uint64, final bool, fails []
 	}
 	for i, x := range cls {
 		if n := x.after.Load(); n > 0 {
-			add("client-callback-after-close", "client %d (%s): %d packet callbacks after Client.Close had returned", i, roleNames[sc.roles[i]], n)
+			add("client-callback-after-close", "client %d (%s): %d packet callbacks after Client.Close had returned", i, roleNames[sc.Roles[i]], n)
+		}
+		if n := x.atRet.Load(); n > 0 {
+			add("client-callback-running-at-close-return", "client %d (%s): %d packet callback(s) still running when Client.Close returned", i, roleNames[sc.Roles[i]], n)
 		}
 	}
 	log.mu.Lock()
 	word = append([]uint64(nil), log.word...)
+	fails = append(fails, log.viol...)
 	log.mu.Unlock()
-	return word, true, fails, maxClose, atClose
+	return word, true, fails, maxClose, atClose, 0, false
 }
 
 // ---------------------------------------------------------------- driver
 
+var portSlot int
+
+// the deterministic cases that every run starts with: the shapes of the regression "a connection tells its
+// session that it is gone before its reader goroutine has been joined" (seeded change C13-2) and of
+// Client.Close called from a packet callback
+func corpus() []*scenario {
+	mk := func(name string, role clientRole, f func(*scenario)) *scenario {
+		sc := &scenario{Seed: 7, Roles: []clientRole{role}, Depth: []int{3}, Target: "none", Q: 64, Burst: 5, NBursts: 3, GapUs: 1000, Corpus: name}
+		f(sc)
+		return sc
+	}
+	return []*scenario{
+		mk("kick-conn-in-rtcp-callback-tcp-play", roleRawPlayTCP, func(s *scenario) {
+			s.Inject = inject{Site: "pkt", What: "conn", Nth: 1, HoldMs: 30}
+			s.WaitInject = true
+			s.DelayMs = 60
+		}),
+		mk("kick-conn-in-rtp-callback-tcp-record", roleRawRecTCP, func(s *scenario) {
+			s.Inject = inject{Site: "pkt", What: "conn", Nth: 1, HoldMs: 30}
+			s.WaitInject = true
+			s.DelayMs = 60
+		}),
+		mk("close-session-in-rtcp-callback-tcp-play", roleRawPlayTCP, func(s *scenario) {
+			s.Inject = inject{Site: "pkt", What: "session", Nth: 2, HoldMs: 20}
+			s.WaitInject = true
+			s.DelayMs = 40
+		}),
+		mk("close-session-in-rtp-callback-tcp-record", roleRawRecTCP, func(s *scenario) {
+			s.Inject = inject{Site: "pkt", What: "session", Nth: 2, HoldMs: 20}
+			s.WaitInject = true
+			s.DelayMs = 40
+		}),
+		mk("kick-conn-from-outside-tcp-record", roleRawRecTCP, func(s *scenario) {
+			s.Target, s.PktSleepUs, s.WaitPkts, s.NBursts, s.Burst, s.GapUs = "conn", 2000, 3, 60, 6, 500
+			s.DelayMs = 0
+		}),
+		mk("kick-conn-from-outside-tcp-play", roleRawPlayTCP, func(s *scenario) {
+			s.Target, s.PktSleepUs, s.WaitPkts, s.NBursts, s.Burst, s.GapUs = "conn", 2000, 3, 60, 6, 500
+			s.DelayMs = 0
+		}),
+		mk("kick-conn-in-play-request", roleRawPlayTCP, func(s *scenario) {
+			s.Inject = inject{Site: "play", What: "conn", Nth: 1, HoldMs: 10}
+			s.WaitInject = true
+			s.DelayMs = 30
+		}),
+		mk("client-close-in-packet-callback-tcp", roleReadTCP, func(s *scenario) {
+			s.ClientCloseCb, s.DelayMs = 3, 80
+		}),
+		mk("client-close-in-packet-callback-udp", roleReadUDP, func(s *scenario) {
+			s.ClientCloseCb, s.DelayMs = 3, 80
+		}),
+		// several UDP readers from one address join the stream at the same time, two medias each: under the race
+		// detector (thorough tier) this is where the data race between a SETUP of a session that already reads a
+		// stream and the stream looking through its readers shows up (known finding; it needs true concurrency -
+		// the race detector orders everything that is linked by a socket write and a later socket read - so one
+		// run of it is not deterministic, the thorough tier runs thousands of scenarios of this shape)
+		mk("udp-readers-join-concurrently", roleReadUDP, func(s *scenario) {
+			s.Roles, s.Depth, s.DelayMs = []clientRole{roleReadUDP, roleReadUDP, roleReadUDP, roleReadUDP}, []int{3, 3, 3, 3}, 120
+		}),
+	}
+}
+
 func genScenario(rng *hx.Rand, i int) *scenario {
-	sc := &scenario{idx: i, seed: rng.U64() % 1000000007}
+	sc := &scenario{Idx: i, Seed: rng.U64() % 1000000007}
 	n := 1 + rng.Intn(4)
+	tcpSess := false
 	for k := 0; k < n; k++ {
 		var role clientRole
-		switch rng.Intn(12) {
+		switch rng.Intn(16) {
 		case 0:
 			role = roleIdleConn
 		case 1:
@@ -707,26 +1096,56 @@ func genScenario(rng *hx.Rand, i int) *scenario {
 			role = rolePubTCP
 		case 8:
 			role = rolePubUDP
-		case 9, 10:
+		case 9:
 			role = roleReadTCPStalled
-		default:
+		case 10:
 			role = rolePubTCPStalled
+		case 11, 12:
+			role = roleRawPlayTCP
+		default:
+			role = roleRawRecTCP
 		}
-		sc.roles = append(sc.roles, role)
+		sc.Roles = append(sc.Roles, role)
 		d := rng.Intn(5)
-		if rng.Intn(2) == 0 {
+		if rng.Intn(2) == 0 || role == roleRawPlayTCP || role == roleRawRecTCP {
 			d = 3
 		}
-		sc.depth = append(sc.depth, d)
+		if d >= 3 && role != roleIdleConn && role != roleOptions {
+			tcpSess = true
+		}
+		sc.Depth = append(sc.Depth, d)
 	}
-	sc.target = hx.Pick(rng, "server", "server", "server", "stream", "client", "client", "session")
-	sc.delayMs = rng.Intn(120)
+	sc.Target = hx.Pick(rng, "server", "server", "server", "stream", "client", "client", "session", "conn", "conn", "conn", "none")
+	sc.DelayMs = rng.Intn(120)
 	if rng.Intn(4) == 0 {
-		sc.delayMs = rng.Intn(15)
+		sc.DelayMs = rng.Intn(15)
 	}
-	sc.q = hx.Pick(rng, 8, 64, 256)
+	sc.Q = hx.Pick(rng, 8, 64, 256)
 	if rng.Intn(5) == 0 {
-		sc.handlerDelayMs = 1 + rng.Intn(10)
+		sc.HandlerDelayMs = 1 + rng.Intn(10)
+	}
+	sc.Burst = 1 + rng.Intn(8)
+	sc.NBursts = 1 + rng.Intn(80)
+	sc.GapUs = hx.Pick(rng, 0, 200, 1000, 5000)
+	sc.PktSleepUs = hx.Pick(rng, 0, 0, 100, 1000, 3000)
+	if rng.Intn(3) == 0 {
+		sc.WaitPkts = 1 + rng.Intn(6)
+		sc.DelayMs = rng.Intn(10)
+	}
+	if tcpSess && rng.Intn(5) < 2 {
+		sc.Inject = inject{
+			Site:   hx.Pick(rng, "pkt", "pkt", "pkt", "pkt", "describe", "announce", "setup", "play", "record", "pause"),
+			What:   hx.Pick(rng, "conn", "conn", "session"),
+			Nth:    1 + rng.Intn(4),
+			HoldMs: hx.Pick(rng, 0, 1, 5, 20),
+		}
+		if sc.Inject.Site != "pkt" {
+			sc.Inject.Nth = 1 + rng.Intn(2)
+		}
+		sc.WaitInject = rng.Intn(2) == 0
+	}
+	if rng.Intn(6) == 0 {
+		sc.ClientCloseCb = 1 + rng.Intn(20)
 	}
 	return sc
 }
@@ -740,10 +1159,210 @@ func wordLine(final bool, w []uint64) string {
 	return l.String()
 }
 
+// ---------------------------------------------------------------- child processes
+
+// childMain: one scenario per input line, one result per output line
+func childMain() {
+	portSlot, _ = strconv.Atoi(os.Getenv("LIFECYCLE_CHILD"))
+	in := bufio.NewReaderSize(os.Stdin, 1<<20)
+	out := bufio.NewWriter(os.Stdout)
+	for {
+		ln, err := in.ReadString('\n')
+		if err != nil {
+			return
+		}
+		sc := &scenario{}
+		if err := json.Unmarshal([]byte(ln), sc); err != nil {
+			fmt.Fprintf(os.Stderr, "child: bad scenario: %v\n", err)
+			os.Exit(4)
+		}
+		if os.Getenv("LIFECYCLE_DEBUG") != "" {
+			fmt.Fprintf(os.Stderr, "scenario %d: %s\n", sc.Idx, sc.String())
+		}
+		var res result
+		if base := libGoroutines(); len(base) != 0 {
+			res.Fails = append(res.Fails, failure{"goroutine-leak", fmt.Sprintf("library goroutines before the scenario was started: %d, e.g. %s", len(base), firstFrames(base[0], 3))})
+		}
+		wd := time.AfterFunc(40*time.Second, func() {
+			buf := make([]byte, 8<<20)
+			nb := runtime.Stack(buf, true)
+			fmt.Fprintf(os.Stderr, "WATCHDOG: scenario %d is stuck\n%s\n", sc.Idx, buf[:nb])
+			os.Exit(3)
+		})
+		word, final, fails, mc, atClose, pkts, fired := runScenario(sc)
+		wd.Stop()
+		res.Word, res.Final, res.MaxCloseMs, res.AtClose, res.Pkts, res.Fired = word, final, mc.Milliseconds(), atClose, pkts, fired
+		res.Fails = append(res.Fails, fails...)
+		b, _ := json.Marshal(&res)
+		out.Write(b)        //nolint:errcheck
+		out.WriteByte('\n') //nolint:errcheck
+		out.Flush()
+	}
+}
+
+type tailBuf struct {
+	mu sync.Mutex
+	b  []byte
+}
+
+func (t *tailBuf) Write(p []byte) (int, error) {
+	t.mu.Lock()
+	defer t.mu.Unlock()
+	if os.Getenv("LIFECYCLE_DEBUG") != "" {
+		os.Stderr.Write(p) //nolint:errcheck
+	}
+	t.b = append(t.b, p...)
+	if len(t.b) > 1<<20 {
+		// keep the beginning (the panic message and the first stacks) and the end
+		t.b = append(t.b[:256<<10:256<<10], t.b[len(t.b)-(256<<10):]...)
+	}
+	return len(p), nil
+}
+func (t *tailBuf) String() string {
+	t.mu.Lock()
+	defer t.mu.Unlock()
+	return string(t.b)
+}
+
+type child struct {
+	cmd  *exec.Cmd
+	in   *bufio.Writer
+	inC  interface{ Close() error }
+	out  *bufio.Reader
+	errb *tailBuf
+}
+
+func startChild(slot int) (*child, error) {
+	cmd := exec.Command(os.Args[0])
+	cmd.Env = append(os.Environ(), "LIFECYCLE_CHILD="+strconv.Itoa(slot))
+	ip, err := cmd.StdinPipe()
+	if err != nil {
+		return nil, err
+	}
+	op, err := cmd.StdoutPipe()
+	if err != nil {
+		return nil, err
+	}
+	eb := &tailBuf{}
+	cmd.Stderr = eb
+	if err := cmd.Start(); err != nil {
+		return nil, err
+	}
+	return &child{cmd: cmd, in: bufio.NewWriter(ip), inC: ip, out: bufio.NewReaderSize(op, 1<<20), errb: eb}, nil
+}
+
+func (c *child) stop() {
+	c.inC.Close()
+	done := make(chan struct{})
+	go func() { c.cmd.Wait(); close(done) }() //nolint:errcheck
+	select {
+	case <-done:
+	case <-time.After(2 * time.Second):
+		c.cmd.Process.Kill() //nolint:errcheck
+		<-done
+	}
+}
+
+// crashReport extracts what killed the child from its stderr
+func crashReport(s string) (class, detail string) {
+	class = "process-crash"
+	at := -1
+	for _, k := range []struct{ key, class string }{{"WATCHDOG:", "scenario-stuck"}, {"panic: ", "library-panic"}, {"fatal error: ", "library-panic"}, {"WARNING: DATA RACE", "data-race"}} {
+		if i := strings.Index(s, k.key); i >= 0 {
+			class, at = k.class, i
+			break
+		}
+	}
+	if at < 0 {
+		if len(s) > 1500 {
+			s = s[len(s)-1500:]
+		}
+		return class, s
+	}
+	d := s[at:]
+	if class == "library-panic" && strings.Contains(d, "concurrent map") && strings.Contains(d, "(*ServerStream).reader") {
+		class = "data-race-setup-vs-stream-readers" // the same defect, caught by the runtime's own map check
+	}
+	// the message and the function names of the first stack
+	var keep []string
+	for _, l := range strings.Split(d, "\n") {
+		if strings.HasPrefix(l, "\t") {
+			continue
+		}
+		keep = append(keep, strings.TrimSpace(l))
+		if len(keep) > 14 {
+			break
+		}
+	}
+	return class, strings.Join(keep, " | ")
+}
+
+// raceClass names the known shape: a SETUP of a session that is already a reader of a stream writes
+// setuppedTransport / setuppedMedias under the session's own mutex while the stream, under the stream's mutex,
+// reads those fields of all its readers
+func raceClass(report string) string {
+	i := strings.Index(report, "WARNING: DATA RACE")
+	first := report[i:]
+	if j := strings.Index(first, "=================="); j > 0 {
+		first = first[:j]
+	}
+	if strings.Contains(first, "(*ServerSession).handleRequestInner()") &&
+		(strings.Contains(first, "(*ServerStream).readerAdd()") || strings.Contains(first, "(*ServerStream).readerSetInactiveUnsafe()") ||
+			strings.Contains(first, "(*ServerStream).readerSetActive()") || strings.Contains(first, "(*ServerStream).readerRemove()")) {
+		return "data-race-setup-vs-stream-readers"
+	}
+	return "data-race"
+}
+
+// runOne runs a scenario in the worker's child process; a child that dies is replaced
+func runOne(slot int, cp **child, sc *scenario) (res *result, crashClass, crashDetail string) {
+	if *cp == nil {
+		c, err := startChild(slot)
+		if err != nil {
+			return nil, "harness-error", "cannot start the child process: " + err.Error()
+		}
+		*cp = c
+	}
+	c := *cp
+	b, _ := json.Marshal(sc)
+	c.in.Write(b)                                                           //nolint:errcheck
+	c.in.WriteByte('\n')                                                    //nolint:errcheck
+	c.in.Flush()                                                            //nolint:errcheck
+	kill := time.AfterFunc(50*time.Second, func() { c.cmd.Process.Kill() }) //nolint:errcheck
+	ln, err := c.out.ReadString('\n')
+	kill.Stop()
+	if err == nil {
+		r := &result{}
+		if jerr := json.Unmarshal([]byte(ln), r); jerr == nil {
+			// a report of the race detector (thorough tier) does not end the process: pick it up here
+			if s := c.errb.String(); strings.Contains(s, "WARNING: DATA RACE") {
+				_, d := crashReport(s)
+				r.Fails = append(r.Fails, failure{raceClass(s), d})
+				c.stop()
+				*cp = nil
+			}
+			return r, "", ""
+		}
+		err = fmt.Errorf("unparsable result %q", ln)
+	}
+	c.cmd.Process.Kill() //nolint:errcheck
+	c.cmd.Wait()         //nolint:errcheck
+	*cp = nil
+	cl, d := crashReport(c.errb.String())
+	if cl == "process-crash" {
+		d = fmt.Sprintf("the process running the scenario ended without a result (%v): %s", err, d)
+	}
+	return nil, cl, d
+}
+
 func main() {
+	if os.Getenv("LIFECYCLE_CHILD") != "" {
+		childMain()
+		return
+	}
 	ctx := hx.Start("lifecycle")
 	defer ctx.Finish()
-	ctx.Rule("one case = one real run: a server with a stream that is being written to and 1..4 peers (idle TCP connection, OPTIONS only, reader or publisher over TCP or UDP stopped after connect / DESCRIBE-ANNOUNCE / SETUP / PLAY-RECORD / PAUSE, readers and publishers whose peer stopped reading); Close of the server, the stream, the clients or the sessions is called after a random delay, concurrently with whatever the peers are doing; then everything is closed. distinct = distinct (target, delay, roles and depths, queue size, seed); non-trivial = at least one connection was opened")
+	ctx.Rule("one case = one real run in a child process: a server with a stream that is being written to and 1..4 peers (idle TCP connection, OPTIONS only, reader or publisher over TCP or UDP stopped after connect / DESCRIBE-ANNOUNCE / SETUP / PLAY-RECORD / PAUSE, readers and publishers whose peer stopped reading, hand-made TCP readers sending bursts of RTCP receiver reports and hand-made TCP publishers sending bursts of RTP frames, several frames per write); Close of the server, the stream, the clients, the sessions or the server-side connections is called after a random delay or after n packet callbacks, concurrently with whatever the peers are doing, and ServerConn.Close / ServerSession.Close / Client.Close are called from inside packet and request callbacks; then everything is closed. distinct = distinct scenario; non-trivial = at least one connection was opened")
 
 	if lines := ctx.ReplayLines(); lines != nil {
 		for _, ln := range lines {
@@ -760,71 +1379,151 @@ func main() {
 		w    []uint64
 		want string
 	}{
-		{[]uint64{1, 0, 3, 0, 0, 4, 0, 7, 0}, "0 3"},          // packet after session close
-		{[]uint64{1, 0, 2, 0, 2, 0}, "0 2"},                   // connection closed twice
-		{[]uint64{1, 0, 3, 0, 0, 4, 0, 6, 0, 0}, "0 3"},       // request in a closed session
-		{[]uint64{3, 0, 0}, "0 0"},                            // session on a connection that was never opened
-		{[]uint64{1, 0, 3, 0, 0, 2, 0}, "3 1 0"},              // final: session never closed
-		{[]uint64{1, 0, 1, 1, 2, 1}, "3 0 0"},                 // final: connection never closed
-		{[]uint64{1, 0, 5, 0, 3, 0, 0, 6, 0, 0, 7, 0, 2, 0, 4, 0}, "1"},
+		{[]uint64{1, 0, 3, 0, 0, 4, 0, 7, 0}, "0 3"},    // packet after session close
+		{[]uint64{1, 0, 2, 0, 2, 0}, "0 2"},             // connection closed twice
+		{[]uint64{1, 0, 3, 0, 0, 4, 0, 6, 0, 0}, "0 3"}, // request in a closed session
+		{[]uint64{3, 0, 0}, "0 0"},                      // session on a connection that was never opened
+		{[]uint64{1, 0, 3, 0, 0, 2, 0}, "3 1 0"},        // final: session never closed
+		{[]uint64{1, 0, 1, 1, 2, 1}, "3 0 0"},           // final: connection never closed
+		{[]uint64{1, 0, 5, 0, 3, 0, 0, 6, 0, 0, 10, 0, 11, 0, 8, 0, 0, 9, 0, 7, 0, 2, 0, 4, 0}, "1"},
+		{[]uint64{1, 0, 3, 0, 0, 8, 0, 0, 4, 0, 9, 0}, "0 3"},          // session close while the reader is inside a packet callback
+		{[]uint64{1, 0, 3, 0, 0, 8, 0, 0, 9, 0, 4, 0, 8, 0, 0}, "0 5"}, // packet callback begins after the session close
+		{[]uint64{1, 0, 3, 0, 0, 6, 0, 0, 10, 0, 4, 0, 11, 0}, "0 4"},  // session close while a request callback is running
+		{[]uint64{1, 0, 3, 0, 0, 10, 0, 11, 0, 4, 0, 10, 0}, "0 5"},    // UDP packet callback after the session close
+		{[]uint64{1, 0, 3, 0, 0, 8, 0, 0, 2, 0}, "0 3"},                // connection close while its reader is inside a callback
+		{[]uint64{1, 0, 3, 0, 0, 8, 0, 0, 8, 0, 0}, "0 3"},             // one reader, two callbacks at once
+		{[]uint64{1, 0, 3, 0, 0, 9, 0}, "0 2"},                         // a return without a call
 	} {
 		ctx.Corr(wordLine(true, m.w), m.want)
 		ctx.Eval()
 		ctx.Kind("automaton-self-check")
 	}
 
-	if base := libGoroutines(); len(base) != 0 {
-		ctx.Failf(-1, "goroutine-leak", "baseline", "library goroutines before anything was started: %d", len(base))
-	}
-	n := ctx.Budget(260, 6000)
+	n := ctx.Budget(400, 9000)
 	if v := os.Getenv("LIFECYCLE_RUNS"); v != "" {
 		n, _ = strconv.Atoi(v)
 	}
-	var maxClose time.Duration
-	cbTotal := 0
+	var scs []*scenario
+	if v := os.Getenv("LIFECYCLE_SCENARIO"); v != "" {
+		one := &scenario{}
+		if err := json.Unmarshal([]byte(v), one); err != nil {
+			panic(err)
+		}
+		if os.Getenv("LIFECYCLE_RUNS") == "" {
+			n = 5
+		}
+		for i := 0; i < n; i++ {
+			c := *one
+			c.Idx = i
+			scs = append(scs, &c)
+		}
+	} else {
+		if os.Getenv("LIFECYCLE_NOCORPUS") == "" {
+			scs = corpus()
+		}
+		for i := len(scs); i < n; i++ {
+			scs = append(scs, genScenario(ctx.Rng, i))
+		}
+		for i, sc := range scs {
+			sc.Idx = i
+		}
+	}
+
+	workers := 3
+	if v := os.Getenv("LIFECYCLE_WORKERS"); v != "" {
+		workers, _ = strconv.Atoi(v)
+	}
+	type outcome struct {
+		res           *result
+		class, detail string
+	}
+	outs := make([]*outcome, len(scs))
+	var next atomic.Int64
 	t0 := time.Now()
-	for i := 0; i < n; i++ {
-		if !ctx.Thorough && time.Since(t0) > 38*time.Second {
-			ctx.Extra("stopped_early_after_runs", i)
-			break
+	var wg sync.WaitGroup
+	for w := 0; w < workers; w++ {
+		w := w
+		wg.Add(1)
+		go func() {
+			defer wg.Done()
+			var cp *child
+			defer func() {
+				if cp != nil {
+					cp.stop()
+				}
+			}()
+			for {
+				i := int(next.Add(1)) - 1
+				if i >= len(scs) {
+					return
+				}
+				if !ctx.Thorough && time.Since(t0) > 38*time.Second {
+					return
+				}
+				r, cl, d := runOne(w, &cp, scs[i])
+				outs[i] = &outcome{r, cl, d}
+			}
+		}()
+	}
+	wg.Wait()
+
+	var maxClose int64
+	cbTotal, ran, pkts, fired, crashes := 0, 0, int64(0), 0, 0
+	for i, o := range outs {
+		if o == nil {
+			continue
 		}
-		sc := genScenario(ctx.Rng, i)
-		if os.Getenv("LIFECYCLE_DEBUG") != "" {
-			fmt.Fprintf(os.Stderr, "scenario %d: %s\n", i, sc.String())
-		}
-		wd := time.AfterFunc(40*time.Second, func() {
-			buf := make([]byte, 8<<20)
-			nb := runtime.Stack(buf, true)
-			fmt.Fprintf(os.Stderr, "WATCHDOG: scenario %d (%s) is stuck\n%s\n", i, sc.String(), buf[:nb])
-			ctx.Failf(-1, "scenario-stuck", sc.String(), "the scenario did not finish within 40 s (see the harness log for the goroutine dump)")
-			ctx.Finish()
-			os.Exit(0)
-		})
-		word, final, fails, mc, atClose := runScenario(sc, ctx)
-		wd.Stop()
-		if atClose != nil {
-			ctx.Corr(wordLine(true, atClose), "1") // balanced already when Server.Close returned
-		}
+		ran++
+		sc := scs[i]
 		ctx.Eval()
-		ctx.Kind("close:" + sc.target)
-		for _, r := range sc.roles {
+		ctx.Kind("close:" + sc.Target)
+		if sc.Inject.Site != "" {
+			ctx.Kind("in-callback:" + sc.Inject.Site + "/" + sc.Inject.What)
+		}
+		if sc.ClientCloseCb > 0 {
+			ctx.Kind("in-callback:client-close")
+		}
+		for _, r := range sc.Roles {
 			ctx.Kind("peer:" + roleNames[r])
 		}
-		if mc > maxClose {
-			maxClose = mc
+		if o.res == nil {
+			// the library brought the process down (or the scenario hung): a violation, the scenario is its replay
+			crashes++
+			ctx.Failf(-1, o.class, sc.String(), "%s", o.detail)
+			continue
+		}
+		r := o.res
+		if r.AtClose != nil {
+			ctx.Corr(wordLine(true, r.AtClose), "1") // balanced already when Server.Close returned
+		}
+		if r.MaxCloseMs > maxClose {
+			maxClose = r.MaxCloseMs
+		}
+		pkts += r.Pkts
+		if r.Fired {
+			fired++
 		}
 		idx := -1
-		if word != nil {
-			idx = ctx.Corr(wordLine(final, word), "1")
-			cbTotal += len(word)
-			if len(word) > 0 {
+		if r.Word != nil {
+			idx = ctx.Corr(wordLine(r.Final, r.Word), "1")
+			cbTotal += len(r.Word)
+			if len(r.Word) > 0 {
 				ctx.Nontrivial(sc.String())
 			}
 		}
-		for _, f := range fails {
-			ctx.Failf(idx, f.class, sc.String(), "%s", f.detail)
+		for _, f := range r.Fails {
+			ctx.Failf(idx, f.Class, sc.String(), "%s", f.Detail)
+		}
+		if sc.Corpus != "" && sc.Inject.Site != "" && !r.Fired {
+			ctx.Failf(idx, "corpus-case-ineffective", sc.String(), "corpus case %s: the in-callback close was never reached (%d packet callbacks)", sc.Corpus, r.Pkts)
 		}
 	}
-	ctx.Extra("max_close_latency_ms", maxClose.Milliseconds())
+	if ran < len(scs) {
+		ctx.Extra("stopped_early_after_runs", ran)
+	}
+	ctx.Extra("max_close_latency_ms", maxClose)
 	ctx.Extra("callback_tokens", cbTotal)
+	ctx.Extra("server_packet_callbacks", pkts)
+	ctx.Extra("in_callback_closes_carried_out", fired)
+	ctx.Extra("child_process_crashes", crashes)
 }
